@@ -321,6 +321,60 @@ def flat_scalars(v, out=None):
     return out
 
 
+DEAD = ('dead',)
+
+
+def flat_typed(prog, ty, v, out=None):
+    """Type-directed, fixed-shape flattening of a decoder state: one slot per scalar, and for a data-carrying enum field
+    (`last_byte: Option<u8>`) the variant tag followed by the payload slots of EVERY variant (those of the inactive variants
+    hold 0).  Symbolic and concrete values of one type therefore flatten to tuples of the same length."""
+    if out is None:
+        out = []
+    tk = prog.tk(ty)
+    if tk is not None:
+        if v is DEAD:
+            out.append(('c', 0, tk))
+        elif v is not None and v[0] in ('c', 'a', 't'):
+            out.append(v)
+        else:
+            raise Undecided('decoder state field of scalar type holds a %s value' % (v[0] if v else 'missing'))
+        return out
+    k = ty.get('k')
+    if k == 'adt' and ty['path'] in prog.adts:
+        a = prog.adt(ty['path'])
+        if a['kind'] == 'struct':
+            ftys = prog.variant_field_tys(ty, 0)
+            for i, ft in enumerate(ftys):
+                flat_typed(prog, ft, DEAD if v is DEAD else (v[3][i] if v is not None and v[0] == 'adt' else None), out)
+            return out
+        if a['kind'] == 'enum':
+            if v is not DEAD and (v is None or v[0] not in ('se', 'adt')):
+                raise Undecided('decoder state field of enum type holds a %s value' % (v[0] if v else 'missing'))
+            out.append(('c', 0, 'isize') if v is DEAD else (v[2] if v[0] == 'se' else ('c', v[2], 'isize')))
+            for var in a['variants']:
+                ftys = prog.variant_field_tys(ty, var['idx'])
+                if any(prog.uninhabited(t) for t in ftys):
+                    continue
+                for j, ft in enumerate(ftys):
+                    if v is DEAD:
+                        x = DEAD
+                    elif v[0] == 'se':
+                        x = v[3][var['idx']][j] if v[3][var['idx']] is not None else DEAD
+                    else:
+                        x = v[3][j] if v[2] == var['idx'] else DEAD
+                    flat_typed(prog, ft, x, out)
+            return out
+    if k == 'tuple':
+        for i, ft in enumerate(ty['elems']):
+            flat_typed(prog, ft, DEAD if v is DEAD else v[3][i], out)
+        return out
+    if k == 'array' and ty.get('len') is not None:
+        for i in range(ty['len']):
+            flat_typed(prog, ty['elem'], DEAD if v is DEAD else v[1][i], out)
+        return out
+    raise Undecided('decoder state contains a field of type %s' % k)
+
+
 class ScanTable:
     """(state, byte) -> (result, post_state) for one ScancodeSet impl.  A state is the tuple of the scalar
     fields of the decoder object (whatever they are), so the table survives a change of representation.
@@ -335,9 +389,10 @@ class ScanTable:
         check_partition(eng, self.leaves)
         self.engine_stats = dict(eng.stats)
         init_cell = eng.initial_store[('H', 'self')]
+        self.self_ty = {'k': 'adt', 'path': self_str, 'local': True, 'args': []}
         self.state_atoms = []
         self.state_tks = []
-        for v in flat_scalars(init_cell):
+        for v in flat_typed(ctx.prog, self.self_ty, init_cell):
             if v[0] != 'a':
                 raise Undecided('decoder state field is not a plain input')
             self.state_atoms.append(v[1])
@@ -367,7 +422,7 @@ class ScanTable:
             for lf in self.leaves:
                 if lf.kind != 'return':
                     continue
-                post = flat_scalars(lf.cells[('H', 'self')])
+                post = flat_typed(ctx.prog, self.self_ty, lf.cells[('H', 'self')])
                 if len(post) != nall:
                     raise Undecided('decoder state changes shape')
                 for i in list(rel):
@@ -430,7 +485,7 @@ class ScanTable:
                 else:
                     kev = o[2][0]
                     res = ('ev', kev[2][0], kev[2][1])
-            pf = flat_scalars(lf.cells[('H', 'self')])
+            pf = flat_typed(self.ctx.prog, self.self_ty, lf.cells[('H', 'self')])
             post = tuple(ev(pf[i], asg) if pf[i][0] != 'c' else pf[i][1] for i in self.keep)
         out = (res, post, hit)
         self.cells[key] = out
@@ -501,7 +556,7 @@ def initial_state_of(ctx, self_str):
     leaves = eng.run(path)
     if len(leaves) != 1 or leaves[0].kind != 'return':
         raise Undecided('new() of %s is not a single straight path' % self_str)
-    fl = flat_scalars(leaves[0].ret)
+    fl = flat_typed(ctx.prog, {'k': 'adt', 'path': self_str, 'local': True, 'args': []}, leaves[0].ret)
     if any(x[0] != 'c' for x in fl):
         raise Undecided('new() of %s does not construct a constant state' % self_str)
     return tuple(x[1] for x in fl), path
@@ -525,7 +580,7 @@ def other_constructors(ctx, self_str, new_path):
         try:
             leaves = eng.run(f['path'])
             if len(leaves) == 1 and leaves[0].kind == 'return':
-                fl = flat_scalars(leaves[0].ret)
+                fl = flat_typed(ctx.prog, {'k': 'adt', 'path': self_str, 'local': True, 'args': []}, leaves[0].ret)
                 out.append((f['path'], tuple(x[1] for x in fl) if all(x[0] == 'c' for x in fl) else None, f['sp']))
             else:
                 out.append((f['path'], None, f['sp']))
@@ -604,7 +659,9 @@ def observer_fields(ctx, adt_path, api_names):
     a = prog.adts.get(adt_path)
     if a is None or a['kind'] != 'struct':
         return set()
-    cand = {i for i, fl in enumerate(a['variants'][0]['fields']) if prog.tk(fl['ty']) in INT_TYPES_}
+    # any field can be an observer (a counter, `last_error: Option<Error>`, a small statistics struct): what matters is where
+    # the values read from it flow
+    cand = set(range(len(a['variants'][0]['fields'])))
     if not cand:
         return set()
     relevant = set()
